@@ -32,16 +32,22 @@ theorem Rem_out (hb : B64RoundTrip) (f : Frame) (co : Byte) (hok : f.ok co) :
 end VncModel.Ws
 namespace VncModel.Ws
 
-theorem decode_step (hb : B64RoundTrip) (c : Ctx) (e : Env) (V : List Byte) (len : Nat)
-    (hinv : Inv c e.pending V) (hff : e.FaultFree) (hs : e.Safe) (hlen : 0 < len) :
+theorem decode_step (hb : B64RoundTrip) (T : List Byte) (cE : Byte) (lv : Bool) (c : Ctx) (e : Env)
+    (V : List Byte) (len : Nat)
+    (hinv : Inv T cE lv c e.pending V) (hT : lv = true ∨ T = []) (hff : e.FaultFree) (hs : e.Safe)
+    (hlen : 0 < len) :
     ∃ out V', (decode c e len).2.2 = (if out = [] then Res.again else Res.data out) ∧
       out.length ≤ len ∧ V = out ++ V' ∧
-      Inv (decode c e len).1 (decode c e len).2.1.pending V' ∧
+      (∃ lv', Inv T cE lv' (decode c e len).1 (decode c e len).2.1.pending V') ∧
       (decode c e len).2.1.FaultFree ∧ (decode c e len).2.1.Safe ∧
       (out ≠ [] ∨ (decode c e len).2.1.pending.length < e.pending.length ∨ e.Stuck) := by
   generalize hp : e.pending = p at hinv
   cases hinv with
-  | done opc fin pl co =>
+  | done opc fin pl =>
+    have hT0 : T = [] := by rcases hT with h | h; · cases h
+                            · exact h
+    subst hT0
+    generalize cE = co at *
     have hBUF : (6 : Int) ≤ BUF := by simp [BUF, Gen.C09.decodeBufSize]
     obtain ⟨hff1, hs1, hc1⟩ := Env.read_cases e 0 6 (by omega) (by omega) hff hs
     have hrd : readHeader (ctxAtHeader [] opc fin pl co) e =
@@ -63,13 +69,14 @@ theorem decode_step (hb : B64RoundTrip) (c : Ctx) (e : Env) (V : List Byte) (len
     refine ⟨[], [], ?_, by simp, by simp, ?_, ?_, ?_, Or.inr (Or.inr (Or.inr hp))⟩ <;>
       simp only [decode, show (ctxAtHeader [] opc fin pl co).st = St.headerPending from rfl, hrd]
     · simp
-    · simp [spor, ctxAtHeader, hpe]; exact Inv.done opc fin pl co
+    · refine ⟨false, ?_⟩
+      simp [spor, ctxAtHeader, hpe]; exact Inv.done opc fin pl
     · simpa using hff1
     · simpa using hs1
-  | header f fs co co' j opc fin pl hv hj hco =>
+  | header f fs co co' j opc fin pl hv hE hj hco =>
     have hok := hv.1
     obtain ⟨e', hff', hs', hcs⟩ := readHeader_cases f fs co co' j opc fin pl e
-      (xorMask f.mask f.payload ++ wireOf fs) hok hj hco hp hff hs
+      (xorMask f.mask f.payload ++ (wireOf fs ++ T)) hok hj hco hp hff hs
     have hst0 : (ctxAtHeader (f.header.take j) opc fin pl co').st = St.headerPending := rfl
     rcases hcs with ⟨j', opc', fin', pl', co'', hj', hco'', hrh, hpe, hprog⟩ | ⟨hrh, hpe⟩
     · -- header still incomplete
@@ -80,7 +87,7 @@ theorem decode_step (hb : B64RoundTrip) (c : Ctx) (e : Env) (V : List Byte) (len
             ctxAtHeader (f.header.take j') opc' fin' pl' co'' := by simp [spor, ctxAtHeader]
         simp only [reduceCtorEq, if_false, ne_eq, not_true_eq_false, this]
         rw [hpe]
-        exact Inv.header f fs co co'' j' opc' fin' pl' hv hj' hco''
+        exact ⟨true, Inv.header f fs co co'' j' opc' fin' pl' hv hE hj' hco''⟩
       · simpa using hff'
       · simpa using hs'
       · simp only [reduceCtorEq, if_false, ne_eq, not_true_eq_false]
@@ -94,7 +101,7 @@ theorem decode_step (hb : B64RoundTrip) (c : Ctx) (e : Env) (V : List Byte) (len
       have hc1 : { ctxInFrame f co 0 [] [] (some f.header.length) St.headerPending with st := St.dataNeeded } =
           ctxInFrame f co 0 [] [] (some f.header.length) St.dataNeeded := rfl
       obtain ⟨d, hd, hdff, hds, out, V', h1, h2, h3, h4, h5, _⟩ :=
-        readAndDecode_frame hb f fs co 0 [] f.payload (f.out co) (some f.header.length) e' len hv
+        readAndDecode_frame hb T cE f fs co 0 [] f.payload (f.out co) (some f.header.length) e' len hv hE
           (by omega) (by simp) (by simp) (fun _ => rfl) (by simpa using Rem_out hb f co hok) hlen
           (by rw [hpe]; simp [xorMask]) hff' hs'
       refine ⟨out, V', ?_, h2, by simpa [expected] using h3, ?_, ?_, ?_, ?_⟩ <;>
@@ -107,14 +114,14 @@ theorem decode_step (hb : B64RoundTrip) (c : Ctx) (e : Env) (V : List Byte) (len
         rw [hpe] at h5
         simp only [List.length_append, List.length_drop] at h5 ⊢
         omega
-  | frame f fs co a cu rest rd Vf rp st hv ha hcu hP hce hrem hcase =>
+  | frame f fs co a cu rest rd Vf rp st hv hE ha hcu hP hce hrem hcase =>
     have hok := hv.1
     have hPlt : f.payload.length < 2 ^ 64 := hok.1
     rcases hcase with ⟨hrd, hst, hrne⟩ | ⟨hrd, hst, hrp⟩
     · -- more payload needed
       subst hrd; subst hst
       obtain ⟨d, hd, hdff, hds, out, V', h1, h2, h3, h4, _, h6⟩ :=
-        readAndDecode_frame hb f fs co a cu rest Vf rp e len hv (ha hrne) hcu hP hce hrem hlen hp hff hs
+        readAndDecode_frame hb T cE f fs co a cu rest Vf rp e len hv hE (ha hrne) hcu hP hce hrem hlen hp hff hs
       have hst0 : (ctxInFrame f co a cu [] rp St.dataNeeded).st = St.dataNeeded := rfl
       refine ⟨out, V', ?_, h2, by simpa using h3, ?_, ?_, ?_, ?_⟩ <;>
         simp only [decode, hst0, hd]
@@ -162,8 +169,8 @@ theorem decode_step (hb : B64RoundTrip) (c : Ctx) (e : Env) (V : List Byte) (len
         · simp only [List.length_take]; omega
         · rw [← List.append_assoc (rd.take len), List.take_append_drop]
         · simp only [hp]
-          exact Inv.frame f fs co a cu rest (rd.drop len) Vf (some (rpv + len)) .dataAvailable hv ha hcu hP hce hrem
-            (Or.inr ⟨hdne, rfl, rfl⟩)
+          exact ⟨true, Inv.frame f fs co a cu rest (rd.drop len) Vf (some (rpv + len)) .dataAvailable hv hE ha hcu hP hce hrem
+            (Or.inr ⟨hdne, rfl, rfl⟩)⟩
       · simp only [hl, if_false] at hret
         have hdec : decode (ctxF f co .dataAvailable (a + cu.length) (xorFrom f.mask a cu)
             (some (wpOf f co a)) (some rpv) rd.length rd) e len =
@@ -181,35 +188,38 @@ theorem decode_step (hb : B64RoundTrip) (c : Ctx) (e : Env) (V : List Byte) (len
           have hVf : Vf = [] := by
             apply Rem_nil (f.effOp co); rw [hcu0, hc] at hrem; exact hrem
           rw [hVf]
-          simpa using Inv_start (f.afterCo co) fs hv.2 opInvalid f.fin 0
+          obtain ⟨lv', h'⟩ := Inv_start T cE (f.afterCo co) fs hv.2 (by simpa [endCo] using hE) opInvalid f.fin 0
+          exact ⟨lv', by simpa using h'⟩
         · have hnp : ¬ (a + cu.length = f.payload.length) := by
             intro h
             have : rest.length = 0 := by omega
             exact hc (List.length_eq_zero_iff.mp this)
           simp only [hnp, if_false]
           rw [spor_ctxF_other _ _ _ (by decide) (by decide)]
-          exact Inv.frame f fs co a cu rest [] Vf none .dataNeeded hv ha hcu hP hce hrem
-            (Or.inl ⟨rfl, rfl, hc⟩)
+          exact ⟨true, Inv.frame f fs co a cu rest [] Vf none .dataNeeded hv hE ha hcu hP hce hrem
+            (Or.inl ⟨rfl, rfl, hc⟩)⟩
 
 end VncModel.Ws
 
 namespace VncModel.Ws
 
 theorem Inv_init (fs : List Frame) (hv : ValidSeq opInvalid fs) :
-    Inv Ctx.init (wireOf fs) (expected opInvalid fs) :=
-  Inv_start opInvalid fs hv opInvalid 0 0
+    ∃ lv, Inv [] (endCo opInvalid fs) lv Ctx.init (wireOf fs) (expected opInvalid fs) := by
+  obtain ⟨lv, h⟩ := Inv_start [] (endCo opInvalid fs) opInvalid fs hv rfl opInvalid 0 0
+  simp only [List.append_nil] at h
+  exact ⟨lv, h⟩
 
 /-- nothing pending in the transport and nothing buffered ⇒ nothing is owed any more -/
-theorem Inv_finished (c : Ctx) (V : List Byte) (h : Inv c [] V) (hrl : c.readlen = 0) : V = [] := by
-  generalize hp : ([] : List Byte) = p at h
+theorem Inv_finished (cE : Byte) (lv : Bool) (c : Ctx) (p V : List Byte) (h : Inv [] cE lv c p V)
+    (hp : [] = p) (hrl : c.readlen = 0) : V = [] := by
   cases h with
   | done => rfl
-  | header f fs co co' j opc fin pl hv hj hco =>
+  | header f fs co co' j opc fin pl hv hE hj hco =>
     exfalso
     have := congrArg List.length hp
     simp only [List.length_nil, List.length_append, List.length_drop] at this
     omega
-  | frame f fs co a cu rest rd Vf rp st hv ha hcu hP hce hrem hcase =>
+  | frame f fs co a cu rest rd Vf rp st hv hE ha hcu hP hce hrem hcase =>
     exfalso
     have hl := congrArg List.length hp
     simp only [List.length_nil, List.length_append, xorFrom_length] at hl
@@ -219,24 +229,25 @@ theorem Inv_finished (c : Ctx) (V : List Byte) (h : Inv c [] V) (hrl : c.readlen
     · have : (rd.length : Int) = 0 := hrl
       exact hne (List.length_eq_zero_iff.mp (by omega))
 
-theorem run_inv (hb : B64RoundTrip) (lens : List Nat) (hl : ∀ l ∈ lens, 0 < l) (c : Ctx) (e : Env)
-    (V : List Byte) (hinv : Inv c e.pending V) (hff : e.FaultFree) (hs : e.Safe) :
+theorem run_inv (hb : B64RoundTrip) (cE : Byte) (lens : List Nat) (hl : ∀ l ∈ lens, 0 < l) (lv : Bool)
+    (c : Ctx) (e : Env)
+    (V : List Byte) (hinv : Inv [] cE lv c e.pending V) (hff : e.FaultFree) (hs : e.Safe) :
     (∀ o ∈ (run c e lens).outs, o.fine = true) ∧
-    ∃ V', V = delivered (run c e lens).outs ++ V' ∧
-      Inv (run c e lens).c (run c e lens).e.pending V' ∧
+    ∃ V' lv', V = delivered (run c e lens).outs ++ V' ∧
+      Inv [] cE lv' (run c e lens).c (run c e lens).e.pending V' ∧
       (run c e lens).e.FaultFree ∧ (run c e lens).e.Safe := by
-  induction lens generalizing c e V with
-  | nil => exact ⟨by simp [run], V, by simp [run, delivered], hinv, hff, hs⟩
+  induction lens generalizing c e V lv with
+  | nil => exact ⟨by simp [run], V, lv, by simp [run, delivered], hinv, hff, hs⟩
   | cons len ls ih =>
-    obtain ⟨out, V1, h1, _, h3, h4, h5, h6, _⟩ :=
-      decode_step hb c e V len hinv hff hs (hl len (by simp))
-    obtain ⟨ih1, V2, ih2, ih3, ih4, ih5⟩ :=
-      ih (fun l hl' => hl l (by simp [hl'])) (decode c e len).1 (decode c e len).2.1 V1 h4 h5 h6
+    obtain ⟨out, V1, h1, _, h3, ⟨lv1, h4⟩, h5, h6, _⟩ :=
+      decode_step hb [] cE lv c e V len hinv (Or.inr rfl) hff hs (hl len (by simp))
+    obtain ⟨ih1, V2, lv2, ih2, ih3, ih4, ih5⟩ :=
+      ih (fun l hl' => hl l (by simp [hl'])) lv1 (decode c e len).1 (decode c e len).2.1 V1 h4 h5 h6
     have hbytes : (decode c e len).2.2.bytes = out := by
       rw [h1]; split <;> simp_all [Res.bytes]
     have hfine : (decode c e len).2.2.fine = true := by
       rw [h1]; split <;> rfl
-    refine ⟨?_, V2, ?_, ?_, ?_, ?_⟩
+    refine ⟨?_, V2, lv2, ?_, ?_, ?_, ?_⟩
     · intro o ho
       simp only [run, List.mem_cons] at ho
       rcases ho with rfl | ho
